@@ -860,15 +860,27 @@ async def _aw(awaitable):
     return await awaitable
 
 
-def _user_cert(permit_pf: bool):
-    if permit_pf not in _CERTS:
+def _user_cert(permit_pf: bool, bare: bool = False):
+    """bare: no extension at all (what `ssh-keygen -O clear` makes): an
+    empty option set is still a certificate's option set"""
+
+    bare = bare and not permit_pf
+
+    if (permit_pf, bare) not in _CERTS:
         ca = memwire.key('c20-ca')
         user = memwire.key('c20-user')
-        _CERTS[permit_pf] = ca.generate_user_certificate(
-            user, 'c20', principals=['user'],
-            permit_port_forwarding=permit_pf)
+        kw = {}
 
-    return _CERTS[permit_pf]
+        if bare:
+            kw = dict(permit_x11_forwarding=False,
+                      permit_agent_forwarding=False, permit_pty=False,
+                      permit_user_rc=False)
+
+        _CERTS[permit_pf, bare] = ca.generate_user_certificate(
+            user, 'c20', principals=['user'],
+            permit_port_forwarding=permit_pf, **kw)
+
+    return _CERTS[permit_pf, bare]
 
 
 def _permitopen_allows(entries: List[List[Any]], host: str, port: int) -> bool:
@@ -994,7 +1006,9 @@ def run_perm(case) -> CaseResult:
             ca.export_public_key().decode().strip()
         sopts['authorized_client_keys'] = asyncssh.import_authorized_keys(
             line + '\n')
-        copts.update(client_keys=[(user, _user_cert(case['cert_pf']))],
+        copts.update(client_keys=[(user, _user_cert(case['cert_pf'],
+                                                    case.get('cert_bare',
+                                                             False)))],
                      password=None)
 
     key_ok = auth == 'password' or not case['no_pf']
@@ -1007,6 +1021,8 @@ def run_perm(case) -> CaseResult:
         labels.add('no-port-forwarding')
     if not cert_ok:
         labels.add('cert-without-permit')
+        if auth == 'cert' and case.get('cert_bare'):
+            labels.add('cert-without-any-option')
 
     pair = Pair(sopts, copts)
     h = pair.h
@@ -1272,6 +1288,7 @@ def perm_strategy(tier: str):
         'auth': pick(['password', 'key', 'key', 'cert', 'cert']),
         'no_pf': pick([False, False, True]),
         'cert_pf': pick([True, True, False]),
+        'cert_bare': pick([False, True]),
         'permitopen': st.one_of(st.just([]),
                                 st.lists(entry, min_size=1, max_size=3)),
         'brackets': st.booleans(),
@@ -1474,6 +1491,22 @@ class RigServer(asyncssh.SSHServer):
             return _ProbeServerSession()
 
         self.rig.requests.append(('tcp', dest_host, dest_port))
+
+        if self.rig.open_gate is not None:
+            # the destination is connected only once the gate opens: the
+            # open request stays in flight meanwhile
+            gate, rig, conn = self.rig.open_gate, self.rig, self.conn
+
+            async def slow():
+                try:
+                    await gate.wait()
+                    return await conn.forward_connection(dest_host, dest_port)
+                finally:
+                    rig.open_done += 1
+                    rig.notify()
+
+            return slow()
+
         return True
 
     def unix_connection_requested(self, dest_path):
@@ -1553,6 +1586,8 @@ class Rig:
         self.changed: Optional[asyncio.Event] = None
         self.sconns: List[Any] = []
         self.requests: List[Any] = []
+        self.open_gate: Optional[asyncio.Event] = None
+        self.open_done = 0
         self.acceptor: Any = None
         self.conn: Any = None
         self.probe_chan: Any = None
@@ -2547,6 +2582,20 @@ async def release_scenario(rig: Rig, case, labels) -> bool:
         if case['inflight'] > 1:
             await rig.probe()
 
+    otask = None
+
+    if case.get('open_inflight'):
+        # one more channel is being opened when the connection ends: the
+        # server has the request and has not connected the destination yet
+        labels.add('open-in-flight')
+        rig.open_gate = asyncio.Event()
+        nreq, nb0 = len(rig.requests), len(rig.b_ends)
+        otask = rig.loop.create_task(_aw(rig.conn.open_connection(
+            '127.0.0.1', btcp)))
+        await rig.expect(lambda: len(rig.requests) > nreq, 'relay',
+                         'release:open-not-requested',
+                         'direct-tcpip open did not reach the server')
+
     if end == 'close':
         rig.conn.close()
     elif end == 'abort':
@@ -2559,6 +2608,32 @@ async def release_scenario(rig: Rig, case, labels) -> bool:
         rig.cut()
     else:
         raise HarnessError('end ' + end)
+
+    if otask is not None:
+        await rig.expect(otask.done, 'release', 'release:open-hangs:' + end,
+                         'open_connection() still pending after the '
+                         'connection ended (%s)' % end, poll=True)
+
+        if otask.done() and not otask.cancelled() and \
+                otask.exception() is None:
+            raise Violation('release', 'open_connection() succeeded although '
+                            'the connection ended before the destination was '
+                            'connected', 'release:open-succeeded:' + end)
+
+        # now the server's pending connect goes ahead: whatever it opens
+        # belongs to a connection that no longer exists
+        rig.open_gate.set()
+        await rig.expect(lambda: rig.open_done > 0, 'release',
+                         'release:open-in-flight:never-finished',
+                         'the server-side open request never finished',
+                         poll=True)
+        await rig.expect(lambda: all(e.eof or e.lost
+                                     for e in rig.b_ends[nb0:]), 'release',
+                         'release:open-in-flight:destination-left-open:' +
+                         end, 'the destination socket connected for a '
+                         'channel whose SSH connection was already gone '
+                         '(%s) stays open' % end, poll=True)
+        rig.open_gate = None
 
     for kind, a, b in pairs:
         for who in (a, b):
@@ -2626,6 +2701,7 @@ def release_strategy(tier: str):
         'active': st.integers(0, 2),
         'explicit': pick([False, False, True]),
         'inflight': pick([0, 0, 1, 2]),
+        'open_inflight': pick([False, False, True]),
         'end': pick(['close', 'abort', 'sabort', 'sclose',
                                 'cut']),
     })
@@ -2922,6 +2998,7 @@ FAMILIES = [
                              'unix-denied', 'listen-allowed', 'listen-denied',
                              'ulisten-allowed', 'ulisten-denied',
                              'denied-by-key', 'denied-by-cert',
+                             'cert-without-any-option',
                              'denied-by-permitopen', 'permitopen-match',
                              'dynamic-port', 'cancel', 'listener-at-end',
                              'end-close', 'end-abort', 'end-cut']}),
@@ -2939,7 +3016,7 @@ FAMILIES = [
            budget={'quick': 160, 'thorough': 2000},
            required={'all': ['rel-' + k for k in REL_KINDS] +
                      ['active', 'explicit-close', 'survives-listener-close',
-                      'loss-in-flight',
+                      'loss-in-flight', 'open-in-flight',
                       'end-close', 'end-abort', 'end-sabort', 'end-cut']},
            case_timeout=120),
     Family('interop', run_interop, enumerate=interop_cases,
